@@ -33,7 +33,9 @@ for p in sorted(glob.glob(os.path.join(V, "harness", "props", "c*.py"))):
         "replay_cmd_template": f"./check {pid} --replay {{path}}",
         "engine": "coq-proof+correspondence",
         "level_claimed": {"category": "proof", "text": m.get("LEVEL_TEXT", ""), "design_ref": m.get("DESIGN_REF", "DESIGN.md section 6 " + pid)},
-        "level_note": m.get("LEVEL_NOTE", ""),
+        "level_note": m.get("LEVEL_NOTE", "") + ((" SOURCE TIES (hand model proved equal to method bodies regenerated from /repo on every run; "
+                                                   "theorem files " + ", ".join("Properties/%s.v" % f for f in m.get("EXTRA_PROPERTY_FILES", [])) + "): "
+                                                   + m["SOURCE_TIE_NOTE"]) if m.get("SOURCE_TIE_NOTE") else ""),
         "technique": m.get("TECHNIQUE", "machine-checked proof in Coq 8.16 about a model tied to the source"),
     })
 na_path = os.path.join(V, "not_applicable.json")
